@@ -126,6 +126,32 @@ Proof. exact (issued_within_lifetime_g jwt_aud_assert_checked jwt_dur_assert_che
 Theorem expiry_is_lifetime_end_rounded_down : forall t0 d, t0 + d - ns_per_s < expiry t0 d <= t0 + d.
 Proof. intros t0 d. split; [exact (expiry_gt t0 d) | exact (expiry_le t0 d)]. Qed.
 
+(* ---- 3b. "the decoded payload equals the issued one": integer payload fields ----
+   issued_accept_iff returns the payload that is IN the token; IssueToken must have put the issued
+   one there.  Full statement:   forall z, issue_number jwt_issue_uses_number z = z
+   (every integer field reaches the claims unchanged).  It holds iff the marshalled payload is
+   decoded into the claims map with json.Number; otherwise integers pass through float64, the
+   statement is refuted at 2^53+1 (finding C14-INT53) and holds up to 2^53 in magnitude. *)
+Theorem issued_integers_exact_iff_json_number :
+  (forall z, issue_number jwt_issue_uses_number z = z) <-> jwt_issue_uses_number = true.
+Proof. exact (issue_number_exact_iff jwt_issue_uses_number). Qed.
+
+Theorem issued_integers_refuted :
+  jwt_issue_uses_number = false -> exists z, issue_number jwt_issue_uses_number z <> z.
+Proof. intros E. rewrite E. exists (two53 + 1). vm_compute. discriminate. Qed.
+
+Theorem issued_integers_partial : forall z, Z.abs z <= two53 -> issue_number jwt_issue_uses_number z = z.
+Proof. exact (issue_number_small jwt_issue_uses_number). Qed.
+
+Theorem issued_integers_status :
+  if jwt_issue_uses_number then forall z, issue_number jwt_issue_uses_number z = z
+  else exists z, issue_number jwt_issue_uses_number z <> z.
+Proof.
+  destruct jwt_issue_uses_number eqn:E.
+  - intros z. reflexivity.
+  - exists (two53 + 1). vm_compute. discriminate.
+Qed.
+
 (* ---- 4. the trace oracle follows from the model wherever code and model agree ---- *)
 Theorem oracle_follows_from_model : forall t,
   origin_consistent t -> t_aud t <> []%N ->
@@ -181,7 +207,7 @@ Proof. vm_compute. repeat split. discriminate. Qed.
 (* the oracle on such a pair: acceptance under the other secret is a violation, and so is an equal
    keyed hash; the model disagrees with both *)
 Example key_oracle_nonvacuous :
-  let bad := mkTrace ex_key_last ex_t0 ex_aud ex_app (ex_view ex_key) (OIssued ex_key true ex_app ex_aud ex_t0 ex_d 77)
+  let bad := mkTrace ex_key_last ex_t0 ex_aud ex_app (ex_view ex_key) (OIssued ex_key true ex_app ex_aud ex_t0 ex_d 77 [])
                      (OOk (mkGp ex_app ex_d (Some ex_t0)) 77) (OOk (mkGp ex_app ex_d (Some ex_t0)) 77) None in
   satisfies (TVal bad) = false /\ agrees (TVal bad) = false
   /\ satisfies (TKeys (mkKeys ex_key ex_key_last true true (Some true))) = false
@@ -189,6 +215,21 @@ Example key_oracle_nonvacuous :
   /\ agrees (TKeys (mkKeys ex_key ex_key_last true true (Some false))) = true
   /\ satisfies (TKeys (mkKeys ex_key ex_key_last true true (Some false))) = true
   /\ agrees (TKeys (mkKeys (firstn 63 ex_prefix) ex_prefix false true None)) = true.
+Proof. vm_compute. repeat split. Qed.
+
+(* float64 rounding of the integers seen in the field: 2^53+1, a workspace ID of cluster 65, MaxInt64,
+   2^62+1, MaxUint64; 2^53 and below are kept *)
+Example issued_integers_nonvacuous :
+  issue_number false 9007199254740993 = 9007199254740992
+  /\ issue_number false 9147936743227393 = 9147936743227392
+  /\ issue_number false 9223372036854775807 = 9223372036854775808
+  /\ issue_number false 4611686018427387905 = 4611686018427387904
+  /\ issue_number false 18446744073709551615 = 18446744073709551616
+  /\ issue_number false (-9007199254740995) = -9007199254740996
+  /\ issue_number false 9007199254740992 = 9007199254740992
+  /\ issue_number true 9007199254740993 = 9007199254740993
+  /\ issued_int_ok false [([87]%N, JNum None 9007199254740992)] ([87]%N, 9007199254740993) = true
+  /\ issued_int_ok true [([87]%N, JNum (Some 9007199254740992) 9007199254740992)] ([87]%N, 9007199254740993) = false.
 Proof. vm_compute. repeat split. Qed.
 
 (* forged views: typed claims never panic whatever else is wrong; the bare one is the F13 witness *)
@@ -220,7 +261,7 @@ Proof. vm_compute. repeat split. Qed.
 
 (* a truthful trace on which the model's outputs are the observed ones *)
 Example oracle_nonvacuous :
-  let t := mkTrace ex_key ex_t0 ex_aud ex_app (ex_view ex_key) (OIssued ex_key true ex_app ex_aud ex_t0 ex_d 77)
+  let t := mkTrace ex_key ex_t0 ex_aud ex_app (ex_view ex_key) (OIssued ex_key true ex_app ex_aud ex_t0 ex_d 77 [])
                    (OOk (mkGp ex_app ex_d (Some ex_t0)) 77) (OOk (mkGp ex_app ex_d (Some ex_t0)) 77) (Some 0%N) in
   agrees (TVal t) = true /\ satisfies (TVal t) = true /\ validate_tok (t_key t) (t_aud t) (t_now t) (t_view t) <> Panic.
 Proof. vm_compute. repeat split. discriminate. Qed.
@@ -238,6 +279,10 @@ Print Assumptions accepted_spelling_status.
 Print Assumptions issued_accept_iff.
 Print Assumptions issued_other_secret.
 Print Assumptions issued_within_lifetime.
+Print Assumptions issued_integers_exact_iff_json_number.
+Print Assumptions issued_integers_refuted.
+Print Assumptions issued_integers_partial.
+Print Assumptions issued_integers_status.
 Print Assumptions expiry_is_lifetime_end_rounded_down.
 Print Assumptions oracle_follows_from_model.
 Print Assumptions key_oracle_follows_from_model.
